@@ -112,8 +112,8 @@ Definition once_statement (fl : rflags) (behav : nat -> params -> outcome)
   match spec_route fl gets posts (q_meth q) (q_path q) with
   | Some h =>
       match the_code e h with
-      | Some b => log = [(b, q_params q)] /\
-                  resp = match behav b (q_params q) with OOk t => mkResp 200 t | _ => failure fl end
+      | Some b => log = [(b, q_dict q)] /\
+                  resp = match behav b (q_dict q) with OOk t => mkResp 200 t | _ => failure fl end
       | None => log = [] /\ resp = failure fl
       end
   | None => log = [] /\ (status resp = 404 \/ status resp = 405)
@@ -121,21 +121,21 @@ Definition once_statement (fl : rflags) (behav : nat -> params -> outcome)
 
 Theorem serve_once fl behav gets posts e q :
   rf_capture fl = true -> NoDup (map fst gets) -> NoDup (map fst posts) ->
-  noswallow fl behav (q_params q) ->
+  noswallow fl behav (q_dict q) ->
   once_statement fl behav gets posts e q.
 Proof.
   intros Hc Ng Np Hn. unfold once_statement, serve.
   rewrite (find_registered fl gets posts (q_meth q) (q_path q) Hc Ng Np).
   destruct (spec_route fl gets posts (q_meth q) (q_path q)) as [h|]; simpl.
-  - rewrite (invoke_once fl behav e h (q_params q) Hn).
+  - rewrite (invoke_once fl behav e h (q_dict q) Hn).
     destruct (the_code e h) as [b|]; simpl; [|auto].
-    destruct (behav b (q_params q)); simpl; auto.
+    destruct (behav b (q_dict q)); simpl; auto.
   - destruct (existsb _ _); simpl; auto.
 Qed.
 
 Lemma serve_log fl behav gets posts e q :
   rf_capture fl = true -> NoDup (map fst gets) -> NoDup (map fst posts) ->
-  noswallow fl behav (q_params q) ->
+  noswallow fl behav (q_dict q) ->
   snd (serve fl behav (register fl gets posts) e q) = spec_entry fl gets posts e q.
 Proof.
   intros Hc Ng Np Hn. pose proof (serve_once fl behav gets posts e q Hc Ng Np Hn) as H.
@@ -183,6 +183,37 @@ Proof.
   destruct (run_events fl behav rs (env_after e pre) post) as [r2 l2]. reflexivity.
 Qed.
 
+(* ---- the parameter dictionary ---- *)
+Lemma filter_notin_id (k : str) (p : params) : ~ In k (map fst p) -> filter (fun kv => negb (str_eqb (fst kv) k)) p = p.
+Proof.
+  induction p as [|[a b] t IH]; simpl; intros Hn; [reflexivity|].
+  destruct (str_eqb a k) eqn:E; simpl.
+  - apply str_eqb_eq in E. subst. tauto.
+  - rewrite IH; tauto.
+Qed.
+
+Lemma dict_of_nodup (p : params) : NoDup (map fst p) -> dict_of p = p.
+Proof.
+  induction p as [|[k v] t IH]; simpl; intros ND; [reflexivity|].
+  inversion ND; subst. rewrite IH by assumption. rewrite filter_notin_id by assumption. reflexivity.
+Qed.
+
+Lemma pget_filter k k' (p : params) : str_eqb k k' = false ->
+  pget k (filter (fun kv => negb (str_eqb (fst kv) k')) p) = pget k p.
+Proof.
+  intros Hk. induction p as [|[a b] t IH]; simpl; [reflexivity|].
+  destruct (str_eqb a k') eqn:E; simpl.
+  - apply str_eqb_eq in E. subst a. rewrite Hk. exact IH.
+  - destruct (str_eqb k a); [reflexivity | exact IH].
+Qed.
+
+Lemma pget_dict_of k (p : params) : pget k (dict_of p) = pget k p.
+Proof.
+  induction p as [|[a b] t IH]; simpl; [reflexivity|].
+  destruct (str_eqb k a) eqn:E; [reflexivity|].
+  rewrite pget_filter by exact E. exact IH.
+Qed.
+
 (* ---- capture ---- *)
 Theorem capture_binds_own fl gets posts : rf_capture fl = true ->
   register fl gets posts = reg_loop fl GET gets ++ reg_loop fl POST posts /\
@@ -196,24 +227,34 @@ Proof.
 Qed.
 
 (* ---- websocket listen loop ---- *)
-Theorem ws_all_delivered ok msgs :
-  (forall m, In m msgs -> deliver m = DIntact /\ ok m = true) -> ws_run ok msgs = (msgs, true).
+Theorem ws_all_delivered wf ok msgs :
+  (forall m, In m msgs -> deliver wf m = DIntact /\ ok m = true) -> ws_run wf ok msgs = (msgs, true).
 Proof.
   induction msgs as [|m r IH]; simpl; intros H; [reflexivity|].
   destruct (H m (or_introl eq_refl)) as [Hd Ho]. rewrite Hd, Ho, IH; [reflexivity|].
   intros x Hx. apply H. right. exact Hx.
 Qed.
 
-Theorem ws_prefix_in_order ok msgs :
-  exists k, fst (ws_run ok msgs) = filter delivered (firstn k msgs).
+Lemma deliver_good wf m : wf_kg wf = true -> wf_none wf = true -> deliver wf m = DIntact.
+Proof. intros Hk Hn. destruct m; simpl; try reflexivity; [rewrite Hn | rewrite Hk]; reflexivity. Qed.
+
+(* the full statement: EVERY message sequence on which the handler returns is handed over once each, in order *)
+Theorem ws_full wf ok msgs : wf_kg wf = true -> wf_none wf = true ->
+  (forall m, In m msgs -> ok m = true) -> ws_run wf ok msgs = (msgs, true).
+Proof.
+  intros Hk Hn H. apply ws_all_delivered. intros m Hm. split; [apply deliver_good; assumption | apply H; exact Hm].
+Qed.
+
+Theorem ws_prefix_in_order wf ok msgs :
+  exists k, fst (ws_run wf ok msgs) = filter (delivered wf) (firstn k msgs).
 Proof.
   induction msgs as [|m r [k IH]]; [exists O; reflexivity|].
-  simpl. destruct (deliver m) eqn:Ed.
+  simpl. destruct (deliver wf m) eqn:Ed.
   - destruct (ok m).
-    + exists (S k). simpl. unfold delivered at 1. rewrite Ed. destruct (ws_run ok r). simpl in *. rewrite IH. reflexivity.
+    + exists (S k). simpl. unfold delivered at 1. rewrite Ed. destruct (ws_run wf ok r). simpl in *. rewrite IH. reflexivity.
     + exists 1%nat. simpl. unfold delivered. rewrite Ed. reflexivity.
   - destruct (ok m).
-    + exists (S k). simpl. unfold delivered at 1. rewrite Ed. destruct (ws_run ok r). simpl in *. rewrite IH. reflexivity.
+    + exists (S k). simpl. unfold delivered at 1. rewrite Ed. destruct (ws_run wf ok r). simpl in *. rewrite IH. reflexivity.
     + exists 1%nat. simpl. unfold delivered. rewrite Ed. reflexivity.
   - exists (S k). simpl. unfold delivered at 1. rewrite Ed. exact IH.
   - exists O. reflexivity.
